@@ -1,11 +1,11 @@
-\* C19 closed configuration, quick tier: <= 4 versions, one flavour set (all three are covered for
+\* C19 closed configuration, quick tier: <= 4 versions, one flavour set, two writes (all flavour sets and the empty file are covered for
 \* <= 3 versions by MC_UpdateFile_emit_quick.cfg, and for <= 4 versions by MC_UpdateFile.cfg in the
 \* thorough tier); by the deadlock check, no stuck step
 \* (termination: MC_UpdateFile_live.cfg, with MaxN = 2 in the quick tier)
 SPECIFICATION SpecD
 CONSTANTS
   MaxN = 3
-  Sizes = {0, 2}
+  Sizes = {2}
   FlavourSets = {{"SHA1", "SHA256"}}
   Mode = "code"
   Runs = 1
